@@ -17,6 +17,9 @@
     paths (incl. `$rename` targets) are equal or prefix-related is rejected up front, for every document
     (`conflict_rejected`, `accepted_conflict_free`) — the former FINDING `conflict-accepted`
     (a conflict escaped when the earlier operator was a no-op), fixed in /repo by `checkPaths`;
+    likewise an update in which, at the first differing segment of two literal paths, a positional
+    segment (`$`, `$[]`, `$[id]`) meets a field name / index ("a.$[]" with "a.5") — a second FINDING
+    (`$min` not idempotent there), fixed in /repo by the second test of `checkPaths`;
   * §5 the change log is conflict free; recorded changes hold in the result for the single-write
     operators (`_partial`: the multi-operator statement is FALSE in the code — see the witness there).
 
@@ -335,7 +338,10 @@ end Tests
 `updatePaths u` lists the literal paths of the update in the order `checkPaths` visits them: for every
 top-level entry whose value is a document, for every field of it, the field key, followed — under the
 key "$rename" with a string value — by the rename target.  Two paths are prefix-related when, as
-segment lists (`splitPath`), one is a prefix of the other (equal paths included). -/
+segment lists (`splitPath`), one is a prefix of the other (equal paths included); they clash
+positionally (`PositionalClash`) when at the first index where they differ exactly one of the two
+segments is positional (`isPositional`: "$" or starting with "$[") — MongoDB's "would create a
+conflict at 'a'". -/
 
 /-- every field key of every operator document is a literal path of the update … -/
 theorem updatePaths_key_mem (u : Doc) (op : String) (fields : List (String × V)) (key : String) (v : V)
@@ -347,36 +353,64 @@ theorem updatePaths_rename_target_mem (u : Doc) (fields : List (String × V)) (k
     (ho : ("$rename", V.doc fields) ∈ u) (hf : (key, V.str target) ∈ fields) : target ∈ updatePaths u :=
   Lungo.updatePaths_rename_target_mem u fields key target ho hf
 
+/-- `firstDiff p q = some (a, b)` says: a and b are the segments of p and q at the first index, within
+    the common length, where the two differ. -/
+theorem firstDiff_some_iff (p q : Path) (a b : String) :
+    firstDiff p q = some (a, b) ↔
+      ∃ k : Nat, p[k]? = some a ∧ q[k]? = some b ∧ a ≠ b ∧ ∀ m, m < k → p[m]? = q[m]? :=
+  Lungo.firstDiff_some_iff p q a b
+
+/-- `PositionalClash p q` (by definition `∃ a b, firstDiff p q = some (a, b) ∧ isPositional a ≠
+    isPositional b`), spelled out on indices: at the first index where the paths differ exactly one of
+    the two segments is positional (`$`, or starting with `$[`). -/
+theorem positionalClash_index_iff (p q : Path) :
+    PositionalClash p q ↔
+      ∃ (k : Nat) (a b : String), p[k]? = some a ∧ q[k]? = some b ∧ a ≠ b ∧ (∀ m, m < k → p[m]? = q[m]?) ∧
+        isPositional a ≠ isPositional b :=
+  PositionalClash_index_iff p q
+
+/-- the executable inner loop of `checkPaths` decides it; the relation is symmetric. -/
+theorem positionalClash_iff (p q : Path) : positionalClash p q = true ↔ PositionalClash p q :=
+  Lungo.positionalClash_iff p q
+
+theorem positionalClash_symm (p q : Path) (h : PositionalClash p q) : PositionalClash q p :=
+  PositionalClash_symm h
+
 /-- `pathsConflict_iff`: the executable test of `checkPaths`, started on the empty path tree, fires
-    exactly when two paths of the list, at positions i < j, are prefix-related. -/
+    exactly when two paths of the list, at positions i < j, are prefix-related or clash positionally. -/
 theorem pathsConflict_iff (ps : List String) :
     pathsConflict [] ps = true ↔
       ∃ (i j : Nat) (p q : String), i < j ∧ ps[i]? = some p ∧ ps[j]? = some q ∧
-        (isPrefixOf (splitPath p) (splitPath q) = true ∨ isPrefixOf (splitPath q) (splitPath p) = true) :=
+        (isPrefixOf (splitPath p) (splitPath q) = true ∨ isPrefixOf (splitPath q) (splitPath p) = true ∨
+          PositionalClash (splitPath p) (splitPath q)) :=
   Lungo.pathsConflict_iff ps
 
 /-- `conflict_rejected`: for ALL contexts, documents, updates and array filters: if two literal
-    paths of the update are prefix-related (equal included), `Apply` rejects the update — whether or
-    not any operator would have changed the document (MongoDB's up-front conflict error). -/
+    paths of the update are prefix-related (equal included), or at their first differing segment
+    exactly one is positional, `Apply` rejects the update — whether or not any operator would have
+    changed the document (MongoDB's up-front conflict errors). -/
 theorem conflict_rejected (c : ACtx) (d u : Doc) (afs : List Doc)
     (h : ∃ (i j : Nat) (p q : String), i < j ∧
       (updatePaths u)[i]? = some p ∧ (updatePaths u)[j]? = some q ∧
-      (isPrefixOf (splitPath p) (splitPath q) = true ∨ isPrefixOf (splitPath q) (splitPath p) = true)) :
+      (isPrefixOf (splitPath p) (splitPath q) = true ∨ isPrefixOf (splitPath q) (splitPath p) = true ∨
+        PositionalClash (splitPath p) (splitPath q))) :
     Apply c d u afs = .error .err :=
   Apply_conflict c d u afs ((Lungo.pathsConflict_iff _).mpr h)
 
-/-- `accepted_conflict_free` (contrapositive): an accepted update has no two prefix-related
-    literal paths. -/
+/-- `accepted_conflict_free` (contrapositive): an accepted update has no two literal paths that are
+    prefix-related or clash positionally. -/
 theorem accepted_conflict_free (c : ACtx) (d u : Doc) (afs : List Doc) (r : Doc × List (String × V))
     (h : Apply c d u afs = .ok r) (i j : Nat) (p q : String) (hij : i < j)
     (hp : (updatePaths u)[i]? = some p) (hq : (updatePaths u)[j]? = some q) :
-    isPrefixOf (splitPath p) (splitPath q) = false ∧ isPrefixOf (splitPath q) (splitPath p) = false :=
+    isPrefixOf (splitPath p) (splitPath q) = false ∧ isPrefixOf (splitPath q) (splitPath p) = false ∧
+      ¬ PositionalClash (splitPath p) (splitPath q) :=
   Apply_ok_unrelated c d u afs r h i j p q hij hp hq
 
 /-- the same as a `List.Pairwise` statement (convenient with sublists / membership). -/
 theorem accepted_paths_pairwise (c : ACtx) (d u : Doc) (afs : List Doc) (r : Doc × List (String × V))
     (h : Apply c d u afs = .ok r) :
-    (updatePaths u).Pairwise fun a b => related (splitPath a) (splitPath b) = false :=
+    (updatePaths u).Pairwise fun a b =>
+      related (splitPath a) (splitPath b) = false ∧ positionalClash (splitPath a) (splitPath b) = false :=
   Apply_ok_pairwise c d u afs r h
 
 section Tests
@@ -401,6 +435,41 @@ def docNoAXC : Doc := [("x", .i32 5), ("a", .doc [("y", .i32 1)])]
 -- TEST: sibling paths and paths that only share a string prefix are not related
 #guard okDoc (Apply ctx0 docNoAXC [("$set", .doc [("a.y", .i32 2), ("a.yy", .i32 3)]), ("$inc", .doc [("a.z", .i32 1)])] [])
   == some [("x", .i32 5), ("a", .doc [("y", .i32 2), ("yy", .i32 3), ("z", .i32 1)])]
+-- TEST: the WITNESS of the positional finding: `{$min: {"a.$[]": 1, "a.5": date}}` on a 4-element array.
+-- The operator loop alone (what `Apply` did before the second test of `checkPaths`) accepts it, pads `a`
+-- to 6 elements, and a second run changes the document again (`$[]` now reaches the padded elements)
+def docPos : Doc := [("a", .arr [.doc [], .doc [("b", .bool true)], .oid [1,0,0,0,0,0,0,0,0,0,0,0], .null])]
+def updPos : Doc := [("$min", .doc [("a.$[]", .i32 1), ("a.5", .date 5)])]
+def opsDoc (d u : Doc) : Option Doc :=
+  match Apply.ops ctx0 [] { doc := d, changed := [] } u with
+  | .ok s => some s.doc
+  | .error _ => none
+#guard opsDoc docPos updPos == some [("a", .arr [.i32 1, .i32 1, .i32 1, .null, .null, .date 5])]
+#guard (opsDoc docPos updPos).bind (fun d1 => opsDoc d1 updPos) == some [("a", .arr [.i32 1, .i32 1, .i32 1, .null, .null, .i32 1])]
+-- … `Apply` now rejects it, on every document (`conflict_rejected`: positions 0 < 1, first difference "$[]" / "5")
+#guard isErr (Apply ctx0 docPos updPos []) && isErr (Apply ctx0 [] updPos [])
+#guard updatePaths updPos == ["a.$[]", "a.5"] && firstDiff (splitPath "a.$[]") (splitPath "a.5") == some ("$[]", "5")
+#guard isPositional "$[]" && !isPositional "5" && positionalClash (splitPath "a.$[]") (splitPath "a.5")
+-- each operator alone is accepted on that document (documentation)
+#guard okDoc (Apply ctx0 docPos [("$min", .doc [("a.$[]", .i32 1)])] []) == some [("a", .arr [.i32 1, .i32 1, .i32 1, .null])]
+#guard okDoc (Apply ctx0 docPos [("$min", .doc [("a.5", .date 5)])] [])
+  == some [("a", .arr [.doc [], .doc [("b", .bool true)], .oid [1,0,0,0,0,0,0,0,0,0,0,0], .null, .null, .date 5])]
+-- TEST: the clash is found in both orders, across operators, below a common prefix, and for `$` / `$[id]`
+#guard isErr (Apply ctx0 docPos [("$min", .doc [("a.5", .date 5)]), ("$set", .doc [("a.$[]", .i32 1)])] [])
+#guard isErr (Apply ctx0 docPos [("$set", .doc [("a.$[e].x", .i32 1), ("a.0.y", .i32 1)])] [[("e", .doc [("$exists", .bool true)])]])
+#guard pathsConflict [] ["q.a.$.x", "q.a.b"] && pathsConflict [] ["a.b", "c", "a.$[i]"]
+-- TEST: two positional segments at the first difference are fine: `a.$[i].x` with `a.$[j].y`, `a.$[].x` with `a.$[i].y`
+def docIJ : Doc := [("a", .arr [.doc [("k", .i32 1)], .doc [("k", .i32 2)]])]
+#guard okDoc (Apply ctx0 docIJ [("$set", .doc [("a.$[i].x", .i32 7), ("a.$[j].y", .i32 8)])]
+    [[("i.k", .i32 1)], [("j.k", .i32 2)]])
+  == some [("a", .arr [.doc [("k", .i32 1), ("x", .i32 7)], .doc [("k", .i32 2), ("y", .i32 8)]])]
+#guard okDoc (Apply ctx0 docIJ [("$set", .doc [("a.$[].x", .i32 7), ("a.$[i].y", .i32 8)])] [[("i.k", .i32 1)]])
+  == some [("a", .arr [.doc [("k", .i32 1), ("x", .i32 7), ("y", .i32 8)], .doc [("k", .i32 2), ("x", .i32 7)]])]
+#guard !positionalClash (splitPath "a.$[i].x") (splitPath "a.$[j].y") && !positionalClash (splitPath "a.$[].x") (splitPath "a.$[i].y")
+-- only the FIRST difference counts; no difference within the common length is no clash (that is the prefix test)
+#guard !positionalClash (splitPath "a.b.$[]") (splitPath "a.c.0") && !positionalClash (splitPath "a.$[]") (splitPath "a.$[].b")
+-- `splitPath` is `strings.Split(path, ".")`, also on the odd strings
+#guard splitPath "" == [""] && splitPath "a." == ["a", ""] && splitPath ".a" == ["", "a"] && splitPath "." == ["", ""]
 -- TEST: pathsConflict on the hypotheses' shape
 #guard pathsConflict [] ["a.x.c", "x", "x"] && pathsConflict [] ["a.b", "c", "a"] && pathsConflict [] ["a", "c", "a.b"]
 #guard !pathsConflict [] ["a.b", "a.c", "ab", "b.a"] && !pathsConflict [] []
